@@ -35,3 +35,19 @@ for layer, (prefixes, excs, kw) in conddrift.LAYERS.items():
 json.dump(dict(cond, note='per refusal site (function|exception|message|ordinal): the canonical '
                           'path condition at /repo HEAD; see stonelint/conddrift.py'),
           open(os.path.join(HERE, 'reference', 'conditions.json'), 'w'), indent=0, sort_keys=True)
+
+# decisions of every function (stonelint/conddrift.py)
+allf = []
+def _add(f):
+    allf.append(f)
+    for g in f.nested.values():
+        _add(g)
+for f in pm1.functions.values():
+    if f.parent is None:
+        _add(f)
+dec = conddrift.decisions(pm1, allf)
+cpath = os.path.join(HERE, 'reference', 'conditions.json')
+d = json.load(open(cpath))
+d['decisions'] = dec
+json.dump(d, open(cpath, 'w'), indent=0, sort_keys=True)
+print(len(dec), 'functions with tests,', sum(len(v) for v in dec.values()), 'tests')
